@@ -34,6 +34,13 @@ CHECKS["C12"] = dict(
     ref="DESIGN.md 4/C12",
     note=NOTE_COMMON + "Outside: units beyond the 14 listed; equality across inch/metric when values are exactly equal; division by a zero length.")
 
+CHECKS["C01"] = dict(
+    text="The real lexer and Path builder run on path data whose every number is symbolic; for every command sequence within the bound (leading move + all "
+         "sequences of <=2, thorough <=3, commands over the 20 letters with implicit repetition, smooth chains, SVG 2 segment-completing z, separator styles) the "
+         "segment count, kinds and every start/control/end coordinate are proved equal to a specification interpreter, plus connectivity and close targets.",
+    ref="DESIGN.md 4/C01",
+    note=NOTE_COMMON + "Arc._svg_parameterize is replaced by a recorder in this check (arguments compared; geometry is C05). Outside: longer sequences.")
+
 NOT_APPLICABLE = {
 }
 
